@@ -48,8 +48,11 @@ def gen_history(rng, n_ops):
             ops.append((rng.choice(QRY1), gen_iterable(rng)))
         elif c < 0.62:
             ops.append((rng.choice(QRYN), [gen_iterable(rng) for _ in range(rng.choice([0, 1, 2, 3]))]))
-        elif c < 0.76:
+        elif c < 0.72:
             ops.append((rng.choice(ELT), rng.randrange(len(UNIVERSE))))
+        elif c < 0.76:
+            ops.append(("IndexRange", rng.randrange(len(UNIVERSE)), rng.randrange(-10, 10),
+                        rng.choice([None, None, rng.randrange(-10, 10)])))
         elif c < 0.86:
             ops.append(("GetItem", rng.randrange(-11, 11)))
         elif c < 0.94:
@@ -60,10 +63,14 @@ def gen_history(rng, n_ops):
 
 
 # ---------------------------------------------------------------------------------------------
-def materialise(it, OrderedSet, FrozenOrderedSet, recv=None, opname=""):
+def materialise(it, OrderedSet, FrozenOrderedSet, recv=None, opname="", objs=None):
     """Build the real Python argument.  For real sets the iteration order is not the list order;
     return the order a traversal yields so that the model sees the same sequence."""
     kind, codes, flavour = it
+    if flavour.startswith("obj:"):
+        # another object of the store, passed itself (not a copy)
+        o = objs[int(flavour[4:]) % len(objs)]
+        return o, [UNIVERSE.index(v) for v in o]
     if flavour.startswith("self"):
         now = [UNIVERSE.index(v) for v in recv]
         if flavour == "self" or opname == "ISub":
@@ -96,17 +103,29 @@ def enc(v):
 
 def run_impl(init, ops):
     """Returns (history of (op_with_observed_arg_order, state_codes, out), or raises)."""
-    from pynguin.utils.orderedset import FrozenOrderedSet, OrderedSet
+    from pynguin.utils.orderedset import OrderedSet
 
     s = OrderedSet(UNIVERSE[c] for c in init)
     hist = []
     for op in ops:
+        s, obs_op, out = apply_op(s, op)
+        hist.append((obs_op, [enc(v) for v in s], out))
+    return hist
+
+
+def apply_op(s, op, objs=None):
+    """Apply one operation to the real object `s`.  Returns (receiver afterwards, operation with the
+    observed argument order, output).  The receiver afterwards is another object only when Python
+    rebinds it (`f |= x` on a frozen set)."""
+    from pynguin.utils.orderedset import FrozenOrderedSet, OrderedSet
+
+    if True:
         name = op[0]
         out = ("OUnit",)
         obs_op = op
         try:
             if name in UPD or name in QRY1:
-                arg, order = materialise(op[1], OrderedSet, FrozenOrderedSet, s, name)
+                arg, order = materialise(op[1], OrderedSet, FrozenOrderedSet, s, name, objs)
                 k_ = "KSet" if (op[1][2] == "self" or (op[1][2].startswith("self") and name == "ISub")) else op[1][0]
                 obs_op = (name, (k_, order, op[1][2]))
                 if name == "Update":
@@ -135,7 +154,7 @@ def run_impl(init, ops):
                 elif name == "Sub":
                     out = ("OList", [enc(v) for v in (s - arg)])
             elif name in MULTI_UPD or name in QRYN:
-                mats = [materialise(it, OrderedSet, FrozenOrderedSet, s, name) for it in op[1]]
+                mats = [materialise(it, OrderedSet, FrozenOrderedSet, s, name, objs) for it in op[1]]
                 obs_op = (name, [("KSet" if it[2] == "self" else it[0], m[1], it[2]) for it, m in zip(op[1], mats)])
                 args = [m[0] for m in mats]
                 if name == "DifferenceUpdate":
@@ -162,6 +181,9 @@ def run_impl(init, ops):
                     out = ("OInt", s.count(v))
                 elif name == "Contains":
                     out = ("OBool", v in s)
+            elif name == "IndexRange":
+                v = UNIVERSE[op[1]]
+                out = ("OInt", s.index(v, op[2]) if op[3] is None else s.index(v, op[2], op[3]))
             elif name == "GetItem":
                 out = ("OInt", enc(s[op[1]]))
             elif name in CMP:
@@ -192,8 +214,7 @@ def run_impl(init, ops):
                 out = ("OList", [enc(v) for v in copy.copy(s)] if len(s) % 2 else [enc(v) for v in FrozenOrderedSet(s)])
         except (IndexError, KeyError, ValueError, TypeError, RuntimeError) as e:
             out = ("OErr", type(e).__name__)
-        hist.append((obs_op, [enc(v) for v in s], out))
-    return hist
+        return s, obs_op, out
 
 
 # ---------------------------------------------------------------------------------------------
@@ -262,6 +283,11 @@ def oracle(init, hist):
                 exp_out = ("OErr", "KeyError")
         elif name == "Index":
             exp_out = ("OInt", state.index(op[1])) if op[1] in state else ("OErr", "ValueError")
+        elif name == "IndexRange":
+            try:
+                exp_out = ("OInt", state.index(op[1], op[2]) if op[3] is None else state.index(op[1], op[2], op[3]))
+            except ValueError:
+                exp_out = ("OErr", "ValueError")
         elif name == "Count":
             exp_out = ("OInt", state.count(op[1]))
         elif name == "Contains":
@@ -302,9 +328,210 @@ def oracle(init, hist):
             kind = op[1][0] if name in UPD + QRY1 else ""
             if name == "GetItem" and op[1] < 0:
                 kind = "negative"
+            if name == "IndexRange":
+                kind = "negative" if (op[2] < 0 or (op[3] is not None and op[3] < 0)) else "bounds"
             return (f"result:{name}:{kind}", f"{op} on {state} returned {out}, expected {exp_out}", k)
         state = new
     return None
+
+
+# ---------------------------------------------------------------------------------------------
+# several objects: constructors from other objects, operations with other objects as arguments
+MUT_METHODS = ["Add", "Discard", "Remove", "Pop", "Clear", "Update", "DifferenceUpdate", "IntersectionUpdate",
+               "SymDiffUpdate"]
+INPLACE = ["IOr", "IAnd", "ISub", "IXor"]
+SAME_CLASS_WAYS = ["copy", "union0", "or_empty", "inter0", "diff0", "sub_empty"]   # result has the source's class
+
+
+def gen_heap_history(rng, n_ops):
+    """[("New", xs, frozen) | ("From", r, frozen, w) | ("Apply", r, op)].  r and w are raw random numbers:
+    the runner resolves r modulo the number of objects that exist at that point (creation order) and
+    picks the construction way from w, so that every sub-sequence of a history is a history."""
+    ops = [("New", [rng.randrange(len(UNIVERSE)) for _ in range(rng.choice([0, 1, 3, 5]))], rng.random() < 0.4)]
+    for _ in range(n_ops):
+        c = rng.random()
+        if c < 0.08:
+            ops.append(("New", [rng.randrange(len(UNIVERSE)) for _ in range(rng.choice([0, 1, 3, 5]))], rng.random() < 0.4))
+        elif c < 0.35:
+            ops.append(("From", rng.randrange(64), rng.random() < 0.45, rng.randrange(64)))
+        else:
+            _, one = gen_history(rng, 1)
+            op = one[0]
+            if op[0] in CMP:
+                continue
+
+            def re_arg(it):
+                # arguments: often another object of the store itself
+                if rng.random() < 0.45:
+                    return ("KSet", [], f"obj:{rng.randrange(64)}")
+                return it
+            if op[0] in UPD or op[0] in QRY1:
+                op = (op[0], re_arg(op[1]))
+            elif op[0] in MULTI_UPD or op[0] in QRYN:
+                op = (op[0], [re_arg(it) for it in op[1]])
+            ops.append(("Apply", rng.randrange(64), op))
+    return ops
+
+
+def run_heap_impl(hops):
+    """Returns ([(observed hop, [(frozen, codes) for every object], out)], hashes of frozen objects stable)."""
+    import copy
+
+    from pynguin.utils.orderedset import FrozenOrderedSet, OrderedSet
+
+    objs, hashes, hist = [], {}, []
+
+    def snap():
+        return [(isinstance(o, FrozenOrderedSet), [enc(v) for v in o]) for o in objs]
+
+    def remember(o):
+        objs.append(o)
+        if isinstance(o, FrozenOrderedSet):
+            hashes[len(objs) - 1] = hash(o)
+
+    for h in hops:
+        out = ("HOut", ("OUnit",))
+        obs = h
+        if h[0] == "New" or not objs:
+            xs = h[1] if h[0] == "New" else []
+            fr = h[2] if h[0] == "New" else False
+            vals = [UNIVERSE[c] for c in xs]
+            remember(FrozenOrderedSet(vals) if fr else OrderedSet(iter(vals)))
+            obs = ("New", xs, fr)
+        elif h[0] == "From":
+            i = h[1] % len(objs)
+            src, want_frozen = objs[i], h[2]
+            src_frozen = isinstance(src, FrozenOrderedSet)
+            if want_frozen and not src_frozen:
+                ways = ["fctor", "freeze"]
+            elif want_frozen:
+                ways = ["fctor", *SAME_CLASS_WAYS]
+            elif src_frozen:
+                ways = ["ctor"]
+            else:
+                ways = ["ctor", *SAME_CLASS_WAYS]
+            way = ways[h[3] % len(ways)]
+            if way == "ctor":
+                new = OrderedSet(src)
+            elif way == "fctor":
+                new = FrozenOrderedSet(src)
+            elif way == "copy":
+                new = copy.copy(src)
+            elif way == "freeze":
+                new = src.freeze()
+            elif way == "union0":
+                new = src.union()
+            elif way == "or_empty":
+                new = src | []
+            elif way == "inter0":
+                new = src.intersection()
+            elif way == "diff0":
+                new = src.difference()
+            else:
+                new = src - []
+            remember(new)
+            obs = ("From", i, isinstance(new, FrozenOrderedSet), way)
+        else:
+            i, op = h[1] % len(objs), h[2]
+            recv = objs[i]
+            try:
+                after, obs_op, o = apply_op(recv, op, objs)
+                obs = ("Apply", i, obs_op)
+                out = ("HOut", o)
+                if after is not recv:
+                    remember(after)
+            except AttributeError:
+                # a FrozenOrderedSet has no mutator methods
+                out = ("HAttributeError",)
+                obs = ("Apply", i, _observe_args(op, objs, recv))
+        hist.append((obs, snap(), out))
+    hash_ok = all(hash(objs[k]) == hv and hash(FrozenOrderedSet(list(objs[k]))) == hv for k, hv in hashes.items())
+    return hist, hash_ok
+
+
+def _observe_args(op, objs, recv):
+    def ob(it):
+        if it[2].startswith("obj:"):
+            return ("KSet", [enc(v) for v in objs[int(it[2][4:]) % len(objs)]], it[2])
+        if it[2].startswith("self"):
+            return ("KSet" if it[2] == "self" else it[0], [enc(v) for v in recv], it[2])
+        if it[2] == "set":
+            return (it[0], [enc(v) for v in set(UNIVERSE[c] for c in it[1])], it[2])
+        return it
+    if op[0] in UPD or op[0] in QRY1:
+        return (op[0], ob(op[1]))
+    if op[0] in MULTI_UPD or op[0] in QRYN:
+        return (op[0], [ob(it) for it in op[1]])
+    return op
+
+
+def heap_oracle(hist):
+    """Frame rule + the single-object reference on the target.  None or (signature, message, step)."""
+    before = []
+    for k, (hop, snapshot, out) in enumerate(hist):
+        if hop[0] == "New":
+            exp = before + [(hop[2], list(dict.fromkeys(hop[1])))]
+            if snapshot != exp:
+                return ("heap:constructor", f"{hop}: store {snapshot}, expected {exp}", k)
+        elif hop[0] == "From":
+            exp = before + [(hop[2], before[hop[1]][1])]
+            if snapshot[:len(before)] != before:
+                return (f"heap:aliasing:construct:{hop[3]}", f"{hop} changed an existing object: {before} -> {snapshot}", k)
+            if snapshot != exp:
+                return (f"heap:copy-value:{hop[3]}", f"{hop}: store {snapshot}, expected {exp}", k)
+        else:
+            i, op = hop[1], hop[2]
+            fr, val = before[i]
+            for j, (b, a) in enumerate(zip(before, snapshot)):
+                if j != i and a != b:
+                    return (f"heap:aliasing:{op[0]}", f"{hop} on object {i} changed object {j}: {b} -> {a}", k)
+            if fr:
+                if snapshot[i] != before[i]:
+                    return (f"heap:frozen-changed:{op[0]}", f"{hop} changed the frozen object {i}: {before[i]} -> {snapshot[i]}", k)
+                if op[0] in MUT_METHODS:
+                    if out != ("HAttributeError",):
+                        return (f"heap:frozen-mutator:{op[0]}", f"{hop} on a frozen set returned {out}", k)
+                elif op[0] in INPLACE:
+                    if len(snapshot) != len(before) + 1 or not snapshot[-1][0]:
+                        return (f"heap:frozen-inplace:{op[0]}", f"{hop}: store {before} -> {snapshot}", k)
+                    q = {"IOr": "Union", "IAnd": "Intersection", "ISub": "Sub", "IXor": "SymDiff"}[op[0]]
+                    qop = (q, [op[1]]) if q in QRYN else (q, op[1])
+                    r = oracle(val, [(qop, val, ("OList", snapshot[-1][1]))])
+                    if r:
+                        return ("heap:" + r[0], r[1], k)
+                else:
+                    r = oracle(val, [(op, snapshot[i][1], out[1])]) if out[0] == "HOut" else ("heap:frozen-query-error", f"{hop}: {out}", k)
+                    if r:
+                        return ("heap:" + r[0], r[1], k)
+                    if len(snapshot) != len(before):
+                        return ("heap:object-count", f"{hop}: store {before} -> {snapshot}", k)
+            else:
+                if len(snapshot) != len(before) or out[0] != "HOut":
+                    return ("heap:object-count", f"{hop}: {out}; store {before} -> {snapshot}", k)
+                r = oracle(val, [(op, snapshot[i][1], out[1])])
+                if r:
+                    return ("heap:" + r[0], r[1], k)
+        before = snapshot
+    return None
+
+
+def c_hop(h):
+    if h[0] == "New":
+        return f"C34H.HNewIter {clist(cZ(c) for c in h[1])} {vlib.cbool(h[2])}"
+    if h[0] == "From":
+        return f"C34H.HNewFrom {h[1]}%nat {vlib.cbool(h[2])}"
+    return f"C34H.HApply {h[1]}%nat ({c_op(h[2])})"
+
+
+def c_hout(o):
+    if o[0] == "HOut":
+        return f"C34H.HOut ({c_out(o[1])})"
+    return "C34H." + o[0]
+
+
+def c_hcase(hist):
+    return clist(cpair(c_hop(h), cpair(clist(cpair(vlib.cbool(fr), clist(cZ(c) for c in codes)) for fr, codes in snap), c_hout(out)))
+                 for h, snap, out in hist)
 
 
 # ---------------------------------------------------------------------------------------------
@@ -320,6 +547,8 @@ def c_op(op):
         return f"C34.{n} {clist(c_it(i) for i in op[1])}"
     if n in ELT or n == "GetItem":
         return f"C34.{n} {cZ(op[1])}"
+    if n == "IndexRange":
+        return f"C34.IndexRange {cZ(op[1])} {cZ(op[2])} {'None' if op[3] is None else '(Some ' + cZ(op[3]) + ')'}"
     if n in CMP:
         return f"C34.{n} {clist(cZ(c) for c in op[1])}"
     return f"C34.{n}"
@@ -367,6 +596,8 @@ def run(ctx: vlib.Ctx):
         ctx.coqchk()
     n_hist = 600 if ctx.quick else 12000
     corpus = json.loads((vlib.VERIF / "corpus" / "C34.json").read_text())
+    heap_corpus = [c["heap"] for c in corpus if "heap" in c]
+    corpus = [c for c in corpus if "heap" not in c]
     hists = [(c["init"], [tuple(o) if not isinstance(o, tuple) else o for o in map(_detuple, c["ops"])]) for c in corpus]
     for _ in range(n_hist):
         hists.append(gen_history(ctx.rng, ctx.rng.choice([1, 2, 4, 8, 12])))
@@ -418,6 +649,66 @@ def run(ctx: vlib.Ctx):
                         "mismatching_histories": len(bad)})
     else:
         ctx.leg("K2", ok=True, histories=len(cases))
+    # ---- several objects: aliasing, frozen objects, constructors from other objects ----
+    n_heap = 400 if ctx.quick else 8000
+    hhists = [[_dehop(h) for h in hc] for hc in heap_corpus]
+    for _ in range(n_heap):
+        hhists.append(gen_heap_history(ctx.rng, ctx.rng.choice([2, 4, 8, 12, 16])))
+    hcases, hrecs, n_hor = [], [], 0
+    for hops in hhists:
+        hist, hash_ok = run_heap_impl(hops)
+        hrecs.append((hops, hist))
+        hcases.append(c_hcase(hist))
+        ctx.case_seen(("heap", hops), nontrivial=len(hops) > 1)
+        for h, snapshot, out in hist:
+            ctx.count("heap:" + h[0] + (":" + h[3] if h[0] == "From" else ""))
+            if h[0] == "Apply":
+                ctx.count("heap:target:" + ("frozen" if snapshot[h[1]][0] else "mutable"))
+                o = h[2]
+                its = [o[1]] if o[0] in UPD + QRY1 else (o[1] if o[0] in MULTI_UPD + QRYN else [])
+                if any(it[2].startswith("obj:") for it in its):
+                    ctx.count("heap:arg-is-object")
+        r = heap_oracle(hist)
+        if r is None and not hash_ok:
+            r = ("heap:frozen-hash", "the hash of a frozen object changed or differs from that of an equal frozen set", len(hops) - 1)
+        if r:
+            n_hor += 1
+            sig, msg, k = r
+
+            def hstill(o2, sig=sig):
+                try:
+                    h2, ok2 = run_heap_impl(o2)
+                    rr = heap_oracle(h2)
+                except Exception:
+                    return False
+                if rr is None and not ok2:
+                    rr = ("heap:frozen-hash",)
+                return rr is not None and rr[0] == sig
+            o2 = hops[:k + 1]
+            changed = True
+            while changed:
+                changed = False
+                for i in range(len(o2)):
+                    cand = o2[:i] + o2[i + 1:]
+                    if cand and hstill(cand):
+                        o2, changed = cand, True
+                        break
+            ctx.fail(sig, msg, {"heap": [_jsonable_hop(h) for h in o2], "universe": [repr(u) for u in UNIVERSE]})
+    ctx.leg("S-heap", oracle_failures=n_hor, histories=len(hrecs))
+    hbad = ctx.run_cases("C34_hcases", "From Verif Require Import Models.C34 Models.C34Heap.", "C34H.hcase",
+                         "C34H.check_hcase", hcases)
+    if hbad is None:
+        pass
+    elif hbad:
+        ctx.leg("K2-heap", ok=False, mismatches=len(hbad))
+        if n_hor == 0 and n_or == 0:
+            hops, hist = hrecs[hbad[0]]
+            ctx.broken("correspondence:C34-store-model-vs-orderedset",
+                       "the store-of-objects model (independence, frozen immutability) no longer reproduces the implementation",
+                       {"heap": [_jsonable_hop(h) for h in hops], "implementation": [repr(h) for h in hist],
+                        "mismatching_histories": len(hbad)})
+    else:
+        ctx.leg("K2-heap", ok=True, histories=len(hcases))
     ctx.assumptions += [
         "elements are compared by ==/hash as Python does; the model identifies each test value with an integer code",
         "the Set/MutableSet/Sequence mixins of collections.abc are modelled as read from CPython 3.12",
@@ -444,9 +735,28 @@ def _jsonable(x):
     return list(x) if isinstance(x, tuple) else x
 
 
+def _jsonable_hop(h):
+    if h[0] == "Apply":
+        return ["Apply", h[1], [_jsonable(x) for x in h[2]]]
+    return list(h)
+
+
+def _dehop(h):
+    if h[0] == "Apply":
+        return ("Apply", h[1], _detuple(h[2]))
+    return tuple(h)
+
+
 def replay(ctx, path):
     vlib.setup_impl_path()
     d = json.loads(open(path).read())["replay"]
+    if "heap" in d:
+        hops = [_dehop(h) for h in d["heap"]]
+        hist, hash_ok = run_heap_impl(hops)
+        print("implementation:", hist, "hashes stable:", hash_ok)
+        print("oracle:", heap_oracle(hist))
+        print("model agrees:", ctx.coq_eval("From Verif Require Import Models.C34 Models.C34Heap.", "C34H.check_hcase " + c_hcase(hist)))
+        return 0
     ops = [_detuple(o) for o in d["ops"]]
     hist = run_impl(d["init"], ops)
     print("implementation:", hist)
